@@ -216,13 +216,14 @@ type rotLine struct {
 	Q    int      `json:"q"`
 	Res  [][]int  `json:"res"`
 	Seq  [][]int  `json:"seq"`
+	Arr  [][]int  `json:"arr"` // the same vectors through Quaternion.RotateArray
 	Ex   bool     `json:"ex"`
 	Id   int      `json:"id"`
 }
 
 func execRot(c rotCase, id int) rotLine {
 	ln := rotLine{K: c.K, Word: c.Word, Ax: c.Ax, C2: c.C2, Sg: c.Sg, Axis: c.Axis, Cn: c.Cn, Sn: c.Sn, Hy: c.Hy, Am: c.Am,
-		Ve: c.Ve, Ae: c.Ae, Ru: c.Ru, Vs: c.Vs, Q: QA, Res: [][]int{}, Seq: [][]int{}, Id: id}
+		Ve: c.Ve, Ae: c.Ae, Ru: c.Ru, Vs: c.Vs, Q: QA, Res: [][]int{}, Seq: [][]int{}, Arr: [][]int{}, Id: id}
 	if ln.Word == nil {
 		ln.Word = []Letter{}
 	}
@@ -241,9 +242,18 @@ func execRot(c rotCase, id int) rotLine {
 	vs := sc3s(vis(c.Vs), c.Ve)
 	out := func(v vector3.Float64) []int { return s.v3(sc3(v, -c.Ru)) }
 	failed := guard(func() {
+		var used quaternion.Quaternion
+		defer func() {
+			in := make([]vector3.Float64, len(vs))
+			copy(in, vs)
+			for _, v := range used.RotateArray(in) {
+				ln.Arr = append(ln.Arr, out(v))
+			}
+		}()
 		switch c.K {
 		case "rot":
 			q, prev := wordQuat(c.Word)
+			used = q
 			for _, v := range vs {
 				ln.Res = append(ln.Res, out(q.Rotate(v)))
 			}
@@ -263,6 +273,7 @@ func execRot(c rotCase, id int) rotLine {
 		case "rotax":
 			theta := float64(c.Sg) * math.Acos(float64(c.C2)/2)
 			q := quaternion.FromTheta(theta, sc3(vi(c.Ax), c.Ae))
+			used = q
 			for _, v := range vs {
 				ln.Res = append(ln.Res, out(q.Rotate(v)))
 			}
@@ -270,6 +281,7 @@ func execRot(c rotCase, id int) rotLine {
 		case "rotq":
 			theta := math.Atan2(float64(c.Sn), float64(c.Cn))
 			q := quaternion.FromTheta(theta, sc3(axisVec(c.Axis).Scale(float64(c.Am)), c.Ae))
+			used = q
 			for _, v := range vs {
 				ln.Res = append(ln.Res, out(q.Rotate(v)))
 			}
